@@ -25,7 +25,7 @@ func (tableChooser) Decide(h *Hand, gs *pf.GameState) Op {
 	return Op{K: "act", Seat: gs.Status.CurrentPlayer, A: "pass"}
 }
 func (tableChooser) Probes(h *Hand, gs *pf.GameState) []Op { return nil }
-func (tableChooser) Cut(h *Hand) bool                      { return false }
+func (tableChooser) Cut(h *Hand) string                    { return "" }
 
 func runForced(c *Cfg) *vlib.Violation {
 	mon := &forcedMon{}
